@@ -1,4 +1,5 @@
 import OptunaVerif.Model.Storage
+import OptunaVerif.Model.Dist
 /-
   `Study._pop_waiting_trial_id` (optuna/study/study.py) run by any number of workers against the
   storage contract, every storage call atomic (that is C03) and arbitrarily interleaved with any
@@ -76,5 +77,115 @@ def run (sys : Sys) (acts : List Act) : Sys := acts.foldl step sys
 def Act.isRequeue : Act → Bool
   | .ext (.setTrialStateValues _ .waiting _) => true
   | _ => false
+
+/-! ## how a trial gets INTO the queue and how its fixed parameters come out again
+(`Study.enqueue_trial`, `Study._should_skip_enqueue`, `Study.add_trial`, the queue part of `Study.ask`,
+`Trial.__init__` — optuna/study/study.py, optuna/trial/_trial.py).  Hand models; `Props/C04EnqueueGen.lean` proves the
+interpreters of the IR regenerated from the source equal to them. -/
+
+/-- the system attribute an enqueued trial carries its parameters in -/
+def fixedKey : String := "fixed_params"
+
+/-- `create_trial(state=WAITING, system_attrs={"fixed_params": params}, user_attrs=user_attrs)`; `payload` is the
+stored form of the `params` dict (attribute payloads are opaque texts in the storage contract) -/
+def enqueueTemplate (payload : String) (userAttrs : AList String) : Template :=
+  { state := .waiting, values := none, params := [], userAttrs := userAttrs, systemAttrs := [(fixedKey, payload)],
+    inter := [], hasStart := false, hasComplete := false }
+
+/-- `Study.add_trial(trial)`: `trial._validate()` (abstract: `valid`), the number-of-objectives check (only when the trial
+has values; reads the study's directions), then `create_new_trial(study_id, template_trial=trial)` -/
+def addTrial (s : Spec) (sid : Nat) (tmpl : Template) (valid implRaised : Bool) : Spec × Out :=
+  if !valid then (s, .err .valueError)
+  else
+    match tmpl.values with
+    | some vs =>
+      match s.study? sid with
+      | none => (s, .err .keyError)
+      | some st =>
+        if st.directions.length ≠ vs.length then (s, .err .valueError)
+        else Storage.step s (.createTrial sid (some tmpl) implRaised)
+    | none => Storage.step s (.createTrial sid (some tmpl) implRaised)
+
+/-- Python types of parameter values, as far as `isinstance(v, type(e))` / `isinstance(v, Real)` see them -/
+inductive PyTy where
+  | noneT | boolT | intT | floatT | strT
+deriving DecidableEq, Repr, Inhabited
+
+open OptunaVerif.Dist in
+def pyTy : Dist.Tok → PyTy
+  | .none => .noneT | .bool _ => .boolT | .int _ => .intT | .str _ => .strT
+  | _ => .floatT
+
+/-- `isinstance(v, type(e))`: same class, or `bool` under `int` -/
+def isInstOfTypeOf (v e : Dist.Tok) : Bool :=
+  pyTy v == pyTy e || (pyTy v == .boolT && pyTy e == .intT)
+
+/-- `isinstance(v, numbers.Real)` -/
+def isReal (v : Dist.Tok) : Bool :=
+  match pyTy v with
+  | .boolT | .intT | .floatT => true
+  | _ => false
+
+def isNaNTok : Dist.Tok → Bool
+  | .nan => true
+  | _ => false
+
+/-- `np.isclose(float(a), float(b), rtol, atol)` = `|a - b| <= atol + rtol * |b|` for finite numbers, equality for
+infinities, `False` as soon as one is NaN -/
+def iscloseTok (rtol atol : Rat) (a b : Dist.Tok) : Bool :=
+  match a, b with
+  | .nan, _ => false
+  | _, .nan => false
+  | .pinf, .pinf => true
+  | .ninf, .ninf => true
+  | .pinf, _ => false | .ninf, _ => false | _, .pinf => false | _, .ninf => false
+  | a, b =>
+    match a.num?, b.num? with
+    | some x, some y => decide (Rat.abs (x - y) ≤ atol + rtol * Rat.abs y)
+    | _, _ => false
+
+/-- one entry of `repeated_params`: `False` when the types do not match, else NaN-or-close for numbers (NOTE: a NaN
+NEW value counts as repeated whatever the existing value is), `==` otherwise -/
+def repeatedOne (v e : Dist.Tok) : Bool :=
+  if !(isInstOfTypeOf v e) then false
+  else if isReal v then (isNaNTok v || iscloseTok (1 / 100000) 0 v e)
+  else v.pyEq e
+
+/-- what `_should_skip_enqueue` reads of an existing trial: its dict-valued system attributes (decoded) and `trial.params` -/
+structure TrialView where
+  sys : AList (AList Dist.Tok)
+  params : AList Dist.Tok
+deriving Repr, Inhabited
+
+def keysEq (a b : AList Dist.Tok) : Bool :=
+  a.all (fun p => (b.get? p.1).isSome) && b.all (fun p => (a.get? p.1).isSome)
+
+/-- `Study._should_skip_enqueue(params)` -/
+def shouldSkip (views : List TrialView) (params : AList Dist.Tok) : Bool :=
+  views.any (fun v =>
+    let tp := (v.sys.get? fixedKey).getD v.params
+    keysEq tp params && params.all (fun p => match tp.get? p.1 with
+      | some e => repeatedOne p.2 e
+      | none => false))
+
+/-- `Study.enqueue_trial(params, user_attrs, skip_if_exists)`; `isDict` = `isinstance(params, dict)`, `views` = the
+trials `get_trials` returned, `enc` = the stored form of a parameter dict.  `none` = `TypeError`. -/
+def enqueue (enc : AList Dist.Tok → String) (s : Spec) (sid : Nat) (isDict : Bool) (params : AList Dist.Tok)
+    (userAttrs : AList String) (skipIfExists : Bool) (views : List TrialView) (valid implRaised : Bool) : Option (Spec × Out) :=
+  if !isDict then none
+  else if skipIfExists && shouldSkip views params then some (s, .unit)
+  else some (addTrial s sid (enqueueTemplate (enc params) userAttrs) valid implRaised)
+
+/-- the queue part of `Study.ask`, after the pop: a popped id is used, otherwise a fresh RUNNING trial is created -/
+def askQueue (s : Spec) (sid : Nat) (popped : Option Nat) : Spec × Out :=
+  match popped with
+  | some tid => (s, .newId tid)
+  | none => Storage.step s (.createTrial sid none false)
+
+/-- `Trial.__init__`: `self._fixed_params = system_attrs.get("fixed_params", {})` of the trial read from the storage -/
+def initFixed (dec : String → Option (AList Dist.Tok)) (t : TrialS) : Option (AList Dist.Tok) :=
+  match t.systemAttrs.get? fixedKey with
+  | some payload => dec payload
+  | none => some []
 
 end OptunaVerif.Queue
